@@ -704,4 +704,126 @@ theorem evalIndexRange_sim_step {σ : Sh} {fuel : Nat} (ih : SimSpec σ fuel) : 
     rintro _ rv s1 t1 hR1 rfl
     exact hjp rv s1 t1 hR1
 
+theorem evalMapLiteral_sim_step {σ : Sh} {fuel : Nat} (ih : SimSpec σ fuel) : ∀ ks vs big acc s t, StR σ s t →
+    SimAt σ (evalMapLiteral (fuel + 1) ks vs big (renP σ acc)) (evalMapLiteral (fuel + 1) ks vs big acc) s t (QO σ) := by
+  intro ks vs big acc s t hR
+  have hdone : SimAt σ (pure (Obj.map big (renP σ acc)) : M Obj) (pure (Obj.map big acc)) s t (QO σ) :=
+    SimAt.pure hR rfl
+  cases ks with
+  | nil => unfold Grol.E.evalMapLiteral; exact hdone
+  | cons k ks =>
+    cases vs with
+    | nil => unfold Grol.E.evalMapLiteral; exact hdone
+    | cons v vs =>
+      unfold Grol.E.evalMapLiteral
+      refine SimAt.bind (ih.eval _ _ _ hR) ?_
+      rintro _ key0 s1 t1 hR1 rfl
+      refine SimAt.bind (sim_valueOf hR1 key0) ?_
+      rintro _ key s2 t2 hR2 ⟨rfl, _⟩
+      rw [ren_isError]
+      refine SimAt.ite (fun _ => SimAt.pure hR2 rfl) (fun _ => ?_)
+      refine SimAt.bind (sim_equalsM hR2 key key) ?_
+      rintro eq _ s3 t3 hR3 rfl
+      refine SimAt.ite (fun _ => SimAt.pure hR3 rfl) (fun _ => ?_)
+      refine SimAt.bind (ih.eval _ _ _ hR3) ?_
+      rintro _ value0 s4 t4 hR4 rfl
+      refine SimAt.bind (sim_valueOf hR4 value0) ?_
+      rintro _ value s5 t5 hR5 ⟨rfl, _⟩
+      rw [ren_isError]
+      refine SimAt.ite (fun _ => SimAt.pure hR5 rfl) (fun _ => ?_)
+      refine SimAt.bind_read (runM_get s5) (runM_get t5) ?_
+      rw [hR5.cfg, mapSet_ren]
+      refine SimAt.bind (Q := fun a b => a = (b.1, renP σ b.2))
+        (SimAt.liftR hR5 (RelR.of_eq (f := fun p => (p.1, renP σ p.2)) rfl (fun _ => rfl))) ?_
+      rintro _ ⟨big', acc'⟩ s6 t6 hR6 rfl
+      exact ih.evalMapLiteral _ _ _ _ _ _ hR6
+
+theorem applyExtension_sim_step {σ : Sh} {fuel : Nat} : ∀ name args s t, StR σ s t →
+    SimAt σ (applyExtension (fuel + 1) name (renL σ args)) (applyExtension (fuel + 1) name args) s t (QO σ) := by
+  intro name args s t hR
+  unfold Grol.E.applyExtension
+  exact SimAt.stop hR
+
+theorem applyFunction_sim_step {σ : Sh} {fuel : Nat} (ih : SimSpec σ fuel) : ∀ fn args s t, StR σ s t →
+    SimAt σ (applyFunction (fuel + 1) (ren σ fn) (renL σ args)) (applyFunction (fuel + 1) fn args) s t (QO σ) := by
+  intro fn args s t hR
+  cases fn with
+  | func f =>
+    simp only [ren]
+    unfold Grol.E.applyFunction
+    dsimp only
+    have hk : (renFn σ f).key = f.key := rfl
+    have hb : (renFn σ f).body = f.body := rfl
+    rw [hk, hb]
+    refine SimAt.bind (sim_cacheGet hR f.key args) ?_
+    rintro _ r s1 t1 hR1 rfl
+    cases r with
+    | some vo =>
+      obtain ⟨v, output⟩ := vo
+      simp only [Option.map]
+      refine SimAt.ite (fun _ => ?_) (fun _ => SimAt.pure hR1 rfl)
+      exact SimAt.bind (sim_writeOut hR1 output) (fun _ _ s2 t2 hR2 _ => SimAt.pure hR2 rfl)
+    | none =>
+      simp only [Option.map]
+      refine SimAt.bind (sim_extendFunctionEnv hR1 f args) ?_
+      rintro _ r1 s2 t2 hR2 ⟨rfl, hn0⟩
+      cases r1 with
+      | error e => exact SimAt.pure hR2 rfl
+      | ok nenv =>
+        have hnenv := hn0 nenv rfl
+        simp only [renX]
+        refine sim_curEnv_bind hR2 ?_
+        refine SimAt.bind (Q := fun _ _ => True) (SimAt.modify (g := fun st => { st with cur := sh σ nenv, outs := [] :: st.outs })
+          (g' := fun st => { st with cur := nenv, outs := [] :: st.outs })
+          ⟨hR2.cfg, hR2.extNames, hR2.depth, hR2.steps, by simp only [hR2.outs], hR2.cache, rfl, hR2.root, hR2.size, hR2.n0,
+            hR2.pos, hR2.frames, hR2.dec⟩) ?_
+        intro _ _ s3 t3 hR3 _
+        refine sim_getFrame_bind hR3 nenv ?_
+        intro fs0 ft0 _ _ hfr0
+        rw [(hfr0.counters hnenv).1]
+        refine SimAt.bind (ih.eval _ _ _ hR3) ?_
+        rintro _ res s4 t4 hR4 rfl
+        refine sim_getFrame_bind hR4 nenv ?_
+        intro fs1 ft1 _ _ hfr1
+        rw [(hfr1.counters hnenv).1, (hfr1.counters hnenv).2.1]
+        refine SimAt.bind_read (runM_get s4) (runM_get t4) ?_
+        rw [hR4.outs]
+        try dsimp only
+        refine SimAt.bind (Q := fun _ _ => True) (SimAt.set ?_) ?_
+        · exact ⟨hR4.cfg, hR4.extNames, hR4.depth, hR4.steps, rfl, hR4.cache, rfl, hR4.root, hR4.size, hR4.n0,
+            hR4.pos, hR4.frames, hR4.dec⟩
+        · intro _ _ s5 t5 hR5 _
+          exact sim_finishCall hR5 f args t2.cur _ _ _ res _
+  | _ =>
+    all_goals
+      simp only [ren]
+      unfold Grol.E.applyFunction
+      exact SimAt.pure hR rfl
+
+theorem simSpec_succ {σ : Sh} {fuel : Nat} (ih : SimSpec σ fuel) : SimSpec σ (fuel + 1) where
+  eval := eval_sim_step ih
+  evalI := evalI_sim_step ih
+  evalStatements := evalStatements_sim_step ih
+  evalExpressions := evalExpressions_sim_step ih
+  evalAssignment := evalAssignment_sim_step ih
+  evalIf := evalIf_sim_step ih
+  evalFor := evalFor_sim_step ih
+  evalForLoop := evalForLoop_sim_step ih
+  evalForSpecialForms := evalForSpecialForms_sim_step ih
+  evalForInteger := evalForInteger_sim_step ih
+  evalForList := evalForList_sim_step ih
+  evalBuiltin := evalBuiltin_sim_step ih
+  evalPrint := evalPrint_sim_step ih
+  evalDelete := evalDelete_sim_step ih
+  evalIndexExpression := evalIndexExpression_sim_step ih
+  evalIndexRange := evalIndexRange_sim_step ih
+  evalMapLiteral := evalMapLiteral_sim_step ih
+  applyExtension := applyExtension_sim_step
+  applyFunction := applyFunction_sim_step ih
+
+/-- every function of the tree walker, at every fuel, runs in lockstep in the two runs -/
+theorem simSpec_all (σ : Sh) : ∀ fuel, SimSpec σ fuel
+  | 0 => simSpec_zero σ
+  | fuel + 1 => simSpec_succ (simSpec_all σ fuel)
+
 end Grol.R
